@@ -1,1 +1,2 @@
 import LzmaProofs.Lemmas.Monad
+import LzmaProofs.Props.C01Sym
